@@ -1,6 +1,6 @@
 // C17 (proofs do not carry openings), C19 (responses statistically mask their secrets)
 use super::gen_issue::{holder, Issue};
-use super::gen_pok::{make_pok, Pok};
+use super::gen_pok::{make_pok, pokverify, Pok};
 use super::*;
 use crate::flat::*;
 use crate::H;
@@ -85,6 +85,19 @@ fn setup(h: &mut H) -> (Keys, Value, Vec<Issue>, Vec<Pok>) {
                 poks.push(Pok { msgs: pk.msgs.clone(), hidden: pk.hidden.clone(), revealed: pk.revealed.clone(), sig: pk.sig.clone(), pok: pb, tape: tb });
             }
             poks.push(pk);
+        }
+        // the same hidden set handed over in DESCENDING order: whatever the prover makes of such a list (on the
+        // pinned tree prover and verifier walk it differently and the proof does not verify -- observation O11,
+        // the API is used with ascending lists), what it SENDS must hide the attributes just as well
+        if u.len() >= 2 {
+            let mut ur = u.clone();
+            ur.reverse();
+            let msgs2 = attrs(h, n);
+            if let Some(pk) = make_pok(h, &k, &ck, n, &ur, msgs2) {
+                let v = pokverify(h, &pk.pok, &ck, &k.pk, &k.bases[..n].to_vec(), &pk.revealed, &ur, n);
+                h.stat(if v.is_true() { "leak.hidden_descending.verifies" } else { "leak.hidden_descending.does_not_verify" });
+                poks.push(pk);
+            }
         }
     }
     let _ = p;
